@@ -2,11 +2,13 @@
 import os, shutil, json
 import vlib
 from cryptocommon import line_trace
+from c11 import parse_races
 
 
 def main(tier):
     run = vlib.Run("C03", "model_checking", tier)
     vlib.build_harness()
+    vlib.build_harness(race=True)
     wd = vlib.spec_scratch(["c01", "c03", "crypto"])
     try:
         res = vlib.tlc(wd, "MCAcceptor", timeout=900)
@@ -17,7 +19,23 @@ def main(tier):
         trace = os.path.join(wd, "trace.ndjson")
         vlib.run_harness(["c03", "-seed", str(run.seed), "-tier", run.tier, "-out", trace, "-cases", os.path.join(wd, "cases.ndjson")], timeout=3400)
         lines = vlib.read_ndjson(trace)
-        reqs = [e for x in lines for e in x["reqs"]]
+        # ---- concurrent rounds against one handler instance (race-instrumented build); same line format, plus race reports
+        ctrace = os.path.join(wd, "conc.ndjson")
+        racelog = os.path.join(wd, "race-c03")
+        vlib.run_harness(["c03conc", "-seed", str(run.seed), "-rounds", "120" if run.thorough else "25", "-out", ctrace, "-cases", os.path.join(wd, "cases.ndjson")],
+                         timeout=3400, race=True, env={"GORACE": "halt_on_error=0 log_path=%s" % racelog}, ok_codes=(0, 66))
+        clines = vlib.read_ndjson(ctrace)
+        racetext = "".join(open(os.path.join(wd, f), errors="replace").read() for f in sorted(os.listdir(wd)) if f.startswith("race-c03."))
+        races = parse_races(racetext)
+        run.extra["concurrent_phase"] = {"requests": len(clines), "served": sum(1 for x in clines if x["reqs"][0]["obs"]["outcome"] == "served"),
+                                         "refused": sum(1 for x in clines if x["reqs"][0]["obs"]["outcome"] == "refused"),
+                                         "race_reports": len(races)}
+        lines += clines
+        lines += [{"ev": "race", "accesses": json.loads(a)} for a in sorted({json.dumps(a) for a in races})]
+        vlib.write_ndjson(trace, lines)
+        nreal = len(lines)
+        lines_req = [x for x in lines if "reqs" in x]
+        reqs = [e for x in lines_req for e in x["reqs"]]
         run.cov["evaluations"] = len(reqs) + sum(1 for e in reqs if e["api"]["called"])
         served = sum(1 for e in reqs if e["obs"]["outcome"] == "served")
         refused = sum(1 for e in reqs if e["obs"]["outcome"] == "refused")
@@ -27,16 +45,19 @@ def main(tier):
                  and e["q"]["cookie"] == "none" and not any(True for d in e["q"]["ap"] if False)]
         if not bad and (served == 0 or refused == 0):
             raise vlib.Inconclusive("vacuous: served=%d refused=%d" % (served, refused))
-        run.cov["distinct_nontrivial"] = len({json.dumps([e["q"] for e in x["reqs"]], sort_keys=True) + json.dumps(x["settings"], sort_keys=True) + str(x["et"]) for x in lines})
+        run.cov["distinct_nontrivial"] = len({json.dumps([e["q"] for e in x["reqs"]], sort_keys=True) + json.dumps(x["settings"], sort_keys=True) + str(x["et"]) for x in lines_req})
         run.cov["rule"] = ("per etype (quick 18,23; thorough all six): every header class (none, other scheme, no token, bad base64, garbage, "
                            "NegTokenInit x 6 mech lists x 5 token kinds, NegTokenResp x 4 supportedMech x 5 kinds, raw KRB5 x 4 kinds); the C01 "
                            "single-defect catalogue under 3 framings x 4 settings; truncations and byte mutations of a valid header (every "
                            "5th position quick, all thorough); all request sequences up to length 3 over a 9-symbol session alphabet. Token "
-                           "verification APIs are called on a fresh token of the same abstract request. distinct = distinct (sequence, settings, etype)")
+                           "verification APIs are called on a fresh token of the same abstract request. Concurrent phase: 25 (thorough 120) rounds x 2 etypes of 14-28 simultaneous requests from two client addresses to one handler instance built from an option slice with spare capacity, each request judged on its own, every race-detector report rejected. distinct = distinct (sequence, settings, etype)")
         for x in (lines[1], lines[40], lines[-1]):
             run.sample(x)
         for i in bad:
             x = lines[i - 1]
+            if x.get("ev") == "race":
+                run.violation({"ev": "race", "accesses": x["accesses"]}, {"line": x})
+                continue
             e = next((e for e in x["reqs"] if True), None)
             facts = {"hdrs": [[e["q"]["hdr"]["class"], e["q"]["hdr"]["mechs"], e["q"]["hdr"]["tok"]] for e in x["reqs"]][:3],
                      "outcomes": [e["obs"]["outcome"] for e in x["reqs"]][:3],
